@@ -48,7 +48,9 @@ FinalClause(pre, e) ==
 (* entries [score, size] (size 0 = empty slot, score Inf).  The insertion  *)
 (* rule is the one of MC_Evo: scan from the top; on an equal score insert  *)
 (* before the entry only if the circuit is smaller; on a strictly better   *)
-(* score insert before the entry; the last entry drops out.                *)
+(* score insert before the entry; the last entry drops out.  The VERDICT    *)
+(* clauses (HofClause) are the property's: HofSorted, HofFromKnown,        *)
+(* BestKept; agreement with this exact rule is reported as information.    *)
 (***************************************************************************)
 InsertAt(h, i, x) == SubSeq(h, 1, i - 1) \o <<x>> \o SubSeq(h, i, Len(h) - 1)
 RECURSIVE ScanH(_, _, _)
@@ -60,13 +62,24 @@ ScanH(h, x, i) ==
   ELSE ScanH(h, x, i + 1)
 RECURSIVE UpdateAll(_, _, _)
 UpdateAll(h, pop, j) == IF j > Len(pop) THEN h ELSE UpdateAll(ScanH(h, pop[j], 1), pop, j + 1)
+\* what the PROPERTY demands of one update (the exact tie-breaking of UpdateAll above is the implementation's choice and
+\* is only reported as information): same length, ordered, every entry is a circuit that was in the hall of fame or in
+\* the population with the score it had there, and the best of everything seen heads the list
+Entries(seq) == {<<seq[i].score, seq[i].size>> : i \in {j \in DOMAIN seq : seq[j].size # 0}}
+MinScore(S) == IF S = {} THEN Inf ELSE CHOOSE x \in {p[1] : p \in S} : \A y \in {p[1] : p \in S} : x <= y
 HofClause(e) ==
   IF e.err # "" THEN "Raised"
-  ELSE LET want == UpdateAll(e.before, e.pop, 1) IN
-    IF Len(e.after) # Len(want) THEN "HofSize"
-    ELSE IF \E i \in DOMAIN want : ~Close(want[i].score, e.after[i].score) \/ want[i].size # e.after[i].size THEN "HofUpdateRule"
-    ELSE IF \E i \in 1..(Len(e.after) - 1) : ~Leq(e.after[i].score, e.after[i + 1].score) THEN "HofSorted"
-    ELSE "ok"
+  ELSE IF Len(e.after) # Len(e.before) THEN "HofSize"
+  ELSE IF \E i \in 1..(Len(e.after) - 1) : ~Leq(e.after[i].score, e.after[i + 1].score) THEN "HofSorted"
+  ELSE IF \E i \in DOMAIN e.after : e.after[i].size # 0 /\
+            ~\E p \in Entries(e.before) \cup Entries(e.pop) : Close(p[1], e.after[i].score) /\ p[2] = e.after[i].size
+       THEN "HofFromKnown"
+  ELSE IF Entries(e.before) \cup Entries(e.pop) # {} /\
+          ~Leq(e.after[1].score, MinScore(Entries(e.before) \cup Entries(e.pop))) THEN "BestKept"
+  ELSE "ok"
+HofRuleInfo(e) ==
+  e.err = "" /\ LET want == UpdateAll(e.before, e.pop, 1) IN
+    Len(e.after) = Len(want) /\ \A i \in DOMAIN want : Close(want[i].score, e.after[i].score) /\ want[i].size = e.after[i].size
 
 \* cause of a HofHonest rejection: when every dishonest entry's stored score IS what the library's own evaluation path
 \* returns (stabilizer target, density-matrix state converted by density_to_stabilizer inside Infidelity), the mismatch
@@ -92,4 +105,7 @@ TraceSpec == Init /\ [][Next]_vars
 Report ==
   /\ (why # "ok") => PrintT(<<"REJECT", Traces[tid].tid, l - 1, why, CauseOf(tid, l - 1, why)>>)
   /\ (why = "ok" /\ l = Len(Events(tid)) + 1) => PrintT(<<"DONE", Traces[tid].tid>>)
+  /\ (why = "ok" /\ l > 1 /\ Events(tid)[l - 1].ev = "update_hof") =>
+        PrintT(<<"INFO", Traces[tid].tid, l - 1, IF HofRuleInfo(Events(tid)[l - 1]) THEN "update_hof follows the insertion rule of MC_Evo (ties: smaller circuit first)"
+                         ELSE "update_hof deviates from the insertion rule of MC_Evo (allowed: the property fixes no tie-breaking)">>)
 =============================================================================
